@@ -787,10 +787,24 @@ def odd_fact(t, pol, x):
     return None
 
 
-def sqrt_helper_ok(world, ev, f):
+def root_call(world, t):
+    """t = fn:f(y)  or  proj(fn:f(y), 0)  (a root helper that also returns the square it solved for)
+    -> (FuncV f, argument y, component or None) or None"""
+    comp = None
+    if is_app(t, "proj") and len(t.args) == 2 and isinstance(t.args[1], Const) and isinstance(t.args[0], App):
+        comp, t = t.args[1].v, t.args[0]
+    if isinstance(t, App) and t.f.startswith("fn:") and len(t.args) == 1 and not t.kw:
+        f = func_by_qual(world, t.f[3:])
+        if f is not None:
+            return f, t.args[0], comp
+    return None
+
+
+def sqrt_helper_ok(world, ev, f, comp=None):
     """Does f(y) implement the field square root used by point decompression:
     xx = (y^2 - 1)/(d y^2 + 1); x = xx^((Q+3)/8); if x^2 != xx: x *= sqrt(-1); return the even root?
-    Decided on the paths of f evaluated on a symbolic y (the function is loop-free)."""
+    Decided on the paths of f evaluated on a symbolic y (the function is loop-free).  A helper may return the
+    pair (x, xx): `comp` = 0 asks for the root; the second component must then be the verified xx."""
     from .evalr import Ev, Policy
     from .poly import term_poly
     qn, Q = field_prime(world, ev)
@@ -817,6 +831,13 @@ def sqrt_helper_ok(world, ev, f):
     for o in rets:
         conds = [(t, p) for (t, p, _) in o.state.pc]
         v = o.value
+        second = None
+        if comp is not None:
+            if not (isinstance(v, TupleV) and len(v.items) == 2 and comp == 0):
+                return False, "the root helper does not return the pair (root, square)"
+            v, second = v.items
+        elif isinstance(v, TupleV):
+            return False, "the root helper returns a tuple"
         flipped = is_app(v, "Sub") and v.args[0] == Const(Q)
         x = v.args[1] if flipped else v
         times_i = False
@@ -831,7 +852,9 @@ def sqrt_helper_ok(world, ev, f):
             return False, "candidate root is not xx^((Q+3)/8) mod Q: %s" % show(x, maxdepth=4)
         xx = x.args[0]
         # xx * (d y^2 + 1) == y^2 - 1 with the inverse written as pow(., Q-2, Q)
-        invs = [t for t in subterms(xx) if is_app(t, "pow") and len(t.args) == 3 and t.args[1] == Const(Q - 2) and t.args[2] == Const(Q)]
+        # (the Euclidean spelling pow(z, -1, Q) equals the Fermat one for a unit z; the denominator d y^2 + 1 is a unit for
+        # every y because d is a non-square and -1 a square - obligation P4 of C12)
+        invs = [t for t in subterms(xx) if is_app(t, "pow") and len(t.args) == 3 and t.args[1] in (Const(Q - 2), Const(-1)) and t.args[2] == Const(Q)]
         if len(invs) != 1:
             return False, "xx does not contain exactly one field inversion"
         atoms = {"y": y, "den_inv": invs[0]}
@@ -844,6 +867,8 @@ def sqrt_helper_ok(world, ev, f):
         DI = Poly.var(Q, "den_inv")
         if not (pxx - (Y * Y - 1) * DI).is_zero() or not (pden - (Poly.const(Q, d) * Y * Y + 1)).is_zero():
             return False, "xx is not (y^2 - 1) / (d y^2 + 1)"
+        if second is not None and second != xx:
+            return False, "the second component returned is not the square xx the root solves for"
         # which branch: x^2 == xx or not
         test = mk_app("NotEq", (mk_app("Mod", (mk_app("Sub", (mk_app("Mult", (x, x)), xx)), Const(Q))), Const(0)))
         pol_ = [p for (t, p) in conds if t == test or t == mk_app("Eq", test.args)]
